@@ -536,13 +536,13 @@ Definition repr_rat (k : kind) (n : Z) (d : positive) : res rc :=
   if (d =? 1)%positive then repr_big k n
   else if is_integer_kind k then Err ETruncInt
   else
-    (* big.Rat.Float64: nearest float64 and whether it is exact *)
-    match round_rat fmt64 n d with
-    | Some f =>
-      let (n', d') := rat_of_fl f in
-      if (n' =? n) && (d' =? d)%positive then repr_f64 k f
-      else repr_bigf k (big_of_rat n d)
-    | None => repr_bigf k (big_of_rat n d)
+    (* rounded once, by big.Rat.Float32 / big.Rat.Float64 *)
+    match k with
+    | KFloat32 | KComplex64 =>
+      match round_rat fmt32 n d with Some f => Ok (F64 f) | None => Err EOverflows end
+    | KFloat64 | KComplex128 =>
+      match round_rat fmt64 n d with Some f => Ok (F64 f) | None => Err EOverflows end
+    | _ => Err ENotRepr
     end.
 
 Definition repr_rc (k : kind) (c : rc) : res rc :=
@@ -584,14 +584,16 @@ Definition rc_uint (c : rc) : Z :=
 Definition cst_uint (c : cst) : Z :=
   match c with Num r => rc_uint r | Cplx re _ => rc_uint re | _ => 0 end.
 
-(* shiftConstError: None = the count is usable *)
-Definition shift_const_error (o : op) (c : cst) : option err :=
+(* shiftConstError: None = the count is usable.  zero1: the left operand is
+   zero.  A count above gen_shift_count_max is rejected for both shifts; a
+   left shift count of at least gen_shift_limit is rejected unless the left
+   operand is zero. *)
+Definition shift_const_error (o : op) (zero1 : bool) (c : cst) : option err :=
   match repr KUint c with
   | Ok c' =>
-    match o with
-    | OShl => if gen_shift_limit <=? cst_uint c' then Some EShiftLarge else None
-    | _ => None
-    end
+    if (match o with OShl => negb zero1 | _ => false end) && (gen_shift_limit <=? cst_uint c') then Some EShiftLarge
+    else if gen_shift_count_max <? cst_uint c' then Some EShiftLarge
+    else None
   | _ =>
     match c with
     | Num (I64 n) | Num (Big n) => if n <? 0 then Some EShiftNeg else Some EShiftOvfUint
@@ -606,7 +608,7 @@ Definition shr (z sc : Z) : Z :=
 
 (* intConst shift (int64Const differs only for the right shift) *)
 Definition shift_int (o : op) (small : bool) (z : Z) (c2 : cst) : res cst :=
-  match shift_const_error o c2 with
+  match shift_const_error o (z =? 0) c2 with
   | Some e => Err e
   | None =>
     let sc := cst_uint c2 in
@@ -614,7 +616,13 @@ Definition shift_int (o : op) (small : bool) (z : Z) (c2 : cst) : res cst :=
     | OShl =>
       let r := z * 2 ^ sc in
       if big_overflow r then Err EShlOverflow else Ok (Num (Big r))
-    | _ => if small then Ok (Num (I64 (shr z sc))) else Ok (Num (Big (shr z sc)))
+    | _ =>
+      if small then Ok (Num (I64 (shr z sc)))
+      else
+        (* also the result of a right shift is checked: the left operand can
+           be a float or rational constant with an integer value above the limit *)
+        let r := shr z sc in
+        if big_overflow r then Err EShlOverflow else Ok (Num (Big r))
     end
   end.
 
@@ -634,7 +642,8 @@ Definition get_rc (r : res cst) : res rc :=
   match r with
   | Ok (Num x) => Ok x
   | Ok _ => Fault
-  | _ => Fault   (* the complex operations ignore the errors of the part operations *)
+  | Err e => Err e   (* the complex operations return the error of a part operation *)
+  | Fault => Fault
   end.
 
 Definition get_bool (r : res cst) : res bool :=
@@ -643,6 +652,12 @@ Definition get_bool (r : res cst) : res bool :=
 Definition part (o : op) (a b : rc) : res rc := get_rc (bin_arith o a b).
 
 Notation "x <- e ;; f" := (bind e (fun x => f)) (at level 61, e at next level, right associativity).
+
+(* sumOfProducts: a*b o c*d, or the error of the first operation that fails *)
+Definition sum_of_products (a b : rc) (o : op) (c d : rc) : res rc :=
+  ab <- part OMul a b ;;
+  cd <- part OMul c d ;;
+  part o ab cd.
 
 Definition bin_cplx (o : op) (a b c d : rc) : res cst :=
   match o with
@@ -655,27 +670,17 @@ Definition bin_cplx (o : op) (a b c d : rc) : res cst :=
     im <- part o b d ;;
     Ok (Cplx re im)
   | OMul =>
-    ac <- part OMul a c ;;
-    bd <- part OMul b d ;;
-    bc <- part OMul b c ;;
-    ad <- part OMul a d ;;
-    re <- part OSub ac bd ;;
-    im <- part OAdd bc ad ;;
+    re <- sum_of_products a c OSub b d ;;
+    im <- sum_of_products b c OAdd a d ;;
     Ok (Cplx re im)
   | ODiv =>
     if rc_zero c && rc_zero d then Err ECDiv0
     else
-      cc <- part OMul c c ;;
-      dd <- part OMul d d ;;
-      s <- part OAdd cc dd ;;
+      s <- sum_of_products c c OAdd d d ;;
       if rc_zero s then Err ECDiv0
       else
-        ac <- part OMul a c ;;
-        bd <- part OMul b d ;;
-        bc <- part OMul b c ;;
-        ad <- part OMul a d ;;
-        re <- part OAdd ac bd ;;
-        im <- part OSub bc ad ;;
+        re <- sum_of_products a c OAdd b d ;;
+        im <- sum_of_products b c OSub a d ;;
         let s' := match s with
                   | I64 z | Big z => Rat z 1
                   | _ => s
